@@ -45,3 +45,10 @@ Print Assumptions c04_reach_kept.
 Theorem c04_nothing_new : forall s ids a c, reach (delete_all s ids) a c -> reach s a c.
 Proof. exact reach_mono. Qed.
 Print Assumptions c04_nothing_new.
+
+(* non-vacuity (Proofs/NonVacuous.v; concrete reachable states, by vm_compute) *)
+From NixV Require Proofs.NonVacuous.
+(* in that state the delete of the array (member of a group, referenced by a tag) succeeds and shortens the walk of the block *)
+Example c04_hypotheses_met := NonVacuous.nv_delete.
+Check c04_hypotheses_met.
+Print Assumptions c04_hypotheses_met.
